@@ -589,6 +589,14 @@ def preprocess_observation(
         return preprocessed_obs
 
     elif isinstance(observation_space, spaces.Tuple):
+        # NOTE: Replay buffers store tuple observations as TensorDicts with
+        # keys "tuple_obs_{i}" (see `agilerl.components.data.to_tensordict`)
+        if isinstance(observation, TensorDict):
+            observation = tuple(
+                observation[f"tuple_obs_{i}"]
+                for i in range(len(observation_space.spaces))
+            )
+
         assert isinstance(
             observation, tuple
         ), f"Expected tuple, got {type(observation)}"
